@@ -18,7 +18,10 @@ check consults the module (they do not occur in the repository today):
     `__setattr__`, `__class_getitem__`, metaclasses) on repository classes;
   * a method of a repository class overridden in a subclass where the
     reference copy has no such override (the rules bind calls to the base
-    class definition).
+    class definition);
+  * attribute writes under a computed name (setattr with a non-literal name,
+    vars(x) / x.__dict__ updates) and code built or loaded at run time
+    (eval, exec, compile, __import__, importlib, types.MethodType).
 """
 import ast
 import os
@@ -210,6 +213,20 @@ def check_resolution(prog, report, only=None):
                     'written: which state changes is invisible to every '
                     'rule that reasons about attributes by name',
                     construct='%s: dynamic attribute write' % rel)
+            # code that is not in the syntax tree
+            if isinstance(st, ast.Call) and (
+                    (isinstance(st.func, ast.Name) and st.func.id in (
+                        'eval', 'exec', 'compile', '__import__'))
+                    or text(st.func) in ('importlib.import_module',
+                                         'importlib.reload', 'types.MethodType',
+                                         'types.FunctionType')):
+                report.violation(
+                    'R-resolve', 'dynamic code %s' % text(st.func),
+                    '%s:%d' % (rel, st.lineno),
+                    'code that is built or loaded at run time is not in '
+                    'the syntax tree the rules read',
+                    construct='%s: dynamic code via %s' % (rel,
+                                                           text(st.func)))
             if isinstance(st, ast.Call) and isinstance(
                     st.func, ast.Name) and st.func.id == 'setattr' and \
                     st.args and isinstance(st.args[0], ast.Name) and (
